@@ -1,4 +1,5 @@
 import Babble.Model.FastForward
+import Babble.Proofs.ByteCodec
 /-! # C12 — fast-sync acceptance
     About `Babble.FF.accept`, the model of `core.checkFastForward` assembled from the check order,
     threshold formula and comparison operator regenerated from the Go sources. -/
@@ -130,5 +131,33 @@ example : accept { structOk := true, peersHashOk := true, frameHashOk := true, l
 /-- the pre-repair witness: one signer under five spellings is refused -/
 example : accept { structOk := true, peersHashOk := true, frameHashOk := true, lenPeers := 5, members := 5, trusted := 1,
                    entries := [⟨some 3, true⟩, ⟨some 3, true⟩, ⟨some 3, true⟩, ⟨some 3, true⟩, ⟨some 3, true⟩] } = false := by decide
+
+/-! ## one key, many spellings
+    The signature map of a block is keyed by *strings*.  `DecodeFromString` never looks at the first
+    two bytes and accepts both cases, so one public key has at least 2·256² spellings that decode to
+    the same bytes; counting map entries therefore counts nothing (defect D8).  The acceptance model
+    counts `validSigners` by the member the decoded key *denotes* (`Entry.member : Option Nat`), and
+    these theorems are why it has to. -/
+
+/-- the case of the hexadecimal digits does not change what a key string decodes to -/
+theorem key_spelling_case_irrelevant (s : Babble.Decode.Bytes) :
+    ByteCodec.decodeFromString (s.map ByteCodec.lowerByte) = ByteCodec.decodeFromString s ∧
+    ByteCodec.decodeFromString (s.map ByteCodec.upperByte) = ByteCodec.decodeFromString s :=
+  ⟨ByteCodec.decode_lower s, ByteCodec.decode_upper s⟩
+
+/-- nor do the first two bytes (nominally `0X`) -/
+theorem key_spelling_prefix_irrelevant (a b a' b' : Nat) (r : Babble.Decode.Bytes) :
+    ByteCodec.decodeFromString (a :: b :: r) = ByteCodec.decodeFromString (a' :: b' :: r) :=
+  ByteCodec.prefix_ignored a b a' b' r
+
+/-- a signature string can be re-spelled too (upper case, leading zeros): the same (r, s) has many
+    strings, so a memo keyed by the string is not a memo keyed by the signature -/
+theorem signature_respelled (n : Nat) :
+    ByteCodec.setString36 ((ByteCodec.text36 n).map ByteCodec.upperByte) = some (Int.ofNat n) ∧
+    ByteCodec.parseAux 0 (48 :: ByteCodec.text36 n) = some n :=
+  ⟨ByteCodec.setString36_upper n, by rw [ByteCodec.parseAux_leading_zero]; exact ByteCodec.parse_text36 n⟩
+
+/-- two different strings, one key: "0Xab" and "zzAB" -/
+example : ByteCodec.decodeFromString [48, 88, 97, 98] = ByteCodec.decodeFromString [122, 122, 65, 66] := by decide
 
 end Babble.Props.C12
